@@ -4,9 +4,8 @@
    building by pairing, attached left of the first leaf in breadth-first order), lazy hash
    recomputation, proofs of inclusion.  Definitions only.
 
-   The operations mirror what the code does at this level, including what it does NOT validate
-   (upsert does not look at the new hash, batch_insert validates only its first two items and is not
-   atomic), so the theorems about them carry the hypothesis that the history is outside KnownClass. *)
+   The operations mirror what the (repaired) code does at this level, including its validations:
+   upsert rejects a hash that belongs to another leaf, batch_insert validates the whole batch first. *)
 From ChiaV.Base Require Import Bytes.
 From ChiaV.Gen Require Import Dl.
 From Coq Require Import Permutation.
@@ -136,6 +135,8 @@ Section TreeH.
     match ot with
     | Some t =>
         if m_mem k (t_kv t) then
+          if m_hash_of_other k h (t_kv t) then (false, ot)        (* HashAlreadyPresent *)
+          else
           match t_graft k (fun _ => TLeaf k v h) t with
           | Some t' => (true, Some t')
           | None => (false, ot)
@@ -196,7 +197,7 @@ Section TreeH.
         end
     end.
 
-  Definition t_batch (items : list item) (ot : option tree) : tres :=
+  Definition t_batch_body (items : list item) (ot : option tree) : tres :=
     if (ot_leaf_count ot <=? 1)%nat then
       match pop_last items with
       | None => (true, ot)
@@ -215,6 +216,14 @@ Section TreeH.
           end
       end
     else t_batch_tail items ot.
+
+  (* the batch is validated as a whole first (no key / hash already in the tree or twice in the batch):
+     exactly the batches the plain map accepts *)
+  Definition t_batch (items : list item) (ot : option tree) : tres :=
+    match m_batch items (ot_kv ot) with
+    | None => (false, ot)
+    | Some _ => t_batch_body items ot
+    end.
 
   (* calculate_lazy_hashes: only dirty nodes are visited (a clean node hides its subtree) *)
   Fixpoint t_rehash (t : tree) : tree :=
